@@ -253,7 +253,16 @@ def run_sharded(cmd, lines, restart_on_hang=False, shards=NPROC):
     return res
 
 
+_DUMP_N = [0]
+
+
 def run_impl(lines):
+    dump = os.environ.get("VERIF_DUMP_CASES")
+    if dump and lines:
+        os.makedirs(dump, exist_ok=True)
+        _DUMP_N[0] += 1
+        with open(os.path.join(dump, f"{os.getpid()}-{_DUMP_N[0]}.cases"), "w") as f:
+            f.write("\n".join(lines) + "\n")
     return run_sharded([HARNESS_BIN, "run"], lines, restart_on_hang=True)
 
 
